@@ -4,9 +4,12 @@
 (* order in which the operating system lists directory entries.            *)
 (*                                                                         *)
 (* Shape A + P.  A *case* is a file layout over search paths 1, 2 (and 3,  *)
-(* reachable only through a .pth file), a request form, and - chosen by    *)
-(* TLC, directory by directory - the ORDER in which os.walk reports the    *)
-(* files and the sub-directories of every directory (variable `listing`).  *)
+(* reachable only through a .pth file), and - chosen by TLC, directory by  *)
+(* directory (action ListDir) - the ORDER in which os.walk reports the     *)
+(* files and the sub-directories of every directory (variable `listing`),  *)
+(* and the request form (chosen by action FindSpec).  Family "stubs" runs  *)
+(* the same machine with find_stubs_package=True over layouts that also    *)
+(* hold stubs-only packages `pkg-stubs`.                                   *)
 (*                                                                         *)
 (* Impl side: a statement-by-statement transcription of                    *)
 (*   ModuleFinder.__init__/_extend_from_pth_files, find_spec,              *)
@@ -14,7 +17,8 @@
 (*   iter_submodules (`seen`/`skip` across namespace portions),            *)
 (*   submodules (stable sort by depth), GriffeLoader._load_submodule,      *)
 (*   _get_or_create_parent_module, set_member (stub merge / replace),      *)
-(*   _load_package (top-level stubs).                                      *)
+(*   find_spec(find_stubs_package=True), _load_package + merge_stubs       *)
+(*   (stubs inside the package and in a stubs-only package).               *)
 (* Reference side: CPython's PathFinder/FileFinder precedence (PyScan),    *)
 (* pkgutil.extend_path for pkgutil-style packages, pkgutil.walk_packages   *)
 (* (PyWalk).  The clauses of the property are the operators V_* at the     *)
@@ -28,7 +32,8 @@
 (***************************************************************************)
 EXTENDS Naturals, Sequences, FiniteSets, TLC, Json, SequencesExt
 
-CONSTANTS Family,     \* "top" | "sub" | "ns" : which family of layouts Init enumerates
+CONSTANTS Family,     \* "top" | "sub" | "ns" | "stubs" : which family of layouts Init enumerates
+                      \* (family "stubs" is loaded with find_stubs_package=True)
           Domain,     \* "clean" | "defect" | "all" : layouts without / with / regardless of a known cause
           MaxFiles,   \* bound on the number of children chosen per package directory (sub, ns)
           Permute,    \* TRUE: every listing order is explored; FALSE: only the canonical one
@@ -38,26 +43,31 @@ CONSTANTS Family,     \* "top" | "sub" | "ns" : which family of layouts Init enu
           Drop,       \* sub, ns: file names removed from the universe of children (quick tier)
           Emit
 
-VARIABLES files, pth, pthform, request,        \* the case: layout + request form
+VARIABLES files, pth, pthform,                 \* the case: layout
+          request,                             \* the case: request form (chosen by FindSpec)
           listing,                             \* the case: what os.walk reports, directory by directory
           pc,
           py, causes, canon,                   \* computed once per layout: CPython reference, cause classes, run under canonical order
           spaths, topname,                     \* ModuleFinder.search_paths, top module name (find_spec)
           fpi, found, nsdirs,                  \* find_package loop state
+          sfound, snsdirs,                     \* find_package("pkg-stubs") (find_stubs_package=True)
           tree, outcome,                       \* the loaded tree (set of nodes), "ok" | "ModuleNotFoundError"
           portions, pti, seen, subs,           \* iter_submodules: portions to scan, index, `seen`, yielded items
           idx                                  \* _load_submodules loop index
 casevars == <<files, pth, pthform, request>>
-vars == <<files, pth, pthform, request, listing, pc, py, causes, canon, spaths, topname, fpi, found, nsdirs,
+stubvars == <<sfound, snsdirs>>
+vars == <<files, pth, pthform, request, listing, pc, py, causes, canon, spaths, topname, fpi, found, nsdirs, sfound, snsdirs,
           tree, outcome, portions, pti, seen, subs, idx>>
 
 Pkg == "pkg"
+Stubs == "pkg-stubs"                 \* PEP 561 stubs-only package of Pkg
+FindStubs == Family = "stubs"        \* load(..., find_stubs_package=True)
 NoFile == <<0, <<>>>>
 Accepted == {".py", ".pyc", ".pyo", ".pyd", ".pyi", ".so"}     \* ModuleFinder.extensions_set
 
 \* ---- token tables ---------------------------------------------------------------------------------
 PyToks  == {"pkg.py", "__init__.py", "__init__.py!", "m.py", "m.x.py", "x.py", "y.py", "z.py", "n.py", "a.py", "b.py", "c.py"}
-PyiToks == {"pkg.pyi", "__init__.pyi", "m.pyi", "x.pyi"}
+PyiToks == {"pkg.pyi", "__init__.pyi", "m.pyi", "x.pyi", "n.pyi"}
 SoToks  == {"pkg.so", "m.so"}
 Ext(t) == IF t \in PyToks THEN ".py" ELSE IF t \in PyiToks THEN ".pyi" ELSE IF t \in SoToks THEN ".so"
           ELSE IF t = "m.pyc" THEN ".pyc" ELSE IF t = "data.txt" THEN ".txt" ELSE ".pth"
@@ -67,7 +77,7 @@ GStem(t) == CASE t \in {"pkg.py", "pkg.pyi", "pkg.so"} -> "pkg"
               [] t \in {"m.py", "m.pyi", "m.so", "m.pyc"} -> "m"
               [] t = "m.x.py" -> "m.x"
               [] t \in {"x.py", "x.pyi"} -> "x"
-              [] t = "y.py" -> "y" [] t = "z.py" -> "z" [] t = "n.py" -> "n"
+              [] t = "y.py" -> "y" [] t = "z.py" -> "z" [] t \in {"n.py", "n.pyi"} -> "n"
               [] t = "a.py" -> "a" [] t = "b.py" -> "b" [] t = "c.py" -> "c"
               [] OTHER -> "-"
 IsDottedName(s) == s = "m.x"
@@ -75,6 +85,7 @@ IsDottedName(s) == s = "m.x"
 SoTok(n) == CASE n = "pkg" -> "pkg.so" [] n = "m" -> "m.so" [] OTHER -> "-"
 PyTok(n) == CASE n = "pkg" -> "pkg.py" [] n = "m" -> "m.py" [] n = "x" -> "x.py" [] n = "y" -> "y.py" [] n = "z" -> "z.py"
               [] n = "n" -> "n.py" [] n = "a" -> "a.py" [] n = "b" -> "b.py" [] n = "c" -> "c.py" [] OTHER -> "-"
+PyiTok(n) == CASE n = "m" -> "m.pyi" [] n = "x" -> "x.pyi" [] n = "n" -> "n.pyi" [] OTHER -> "-"
 PycTok(n) == CASE n = "m" -> "m.pyc" [] OTHER -> "-"      \* sourceless bytecode next to (not under) __pycache__ rules
 CandNames == {"m", "n", "s", "t", "x", "y", "z", "a", "b", "c"}
 
@@ -88,8 +99,8 @@ IsDir(p, d) == \E r \in FilesOf(p) : Len(r) > Len(d) /\ Prefix(r, Len(d)) = d
 FileNames(p, d) == {r[Len(d) + 1] : r \in {q \in FilesOf(p) : Len(q) = Len(d) + 1 /\ Prefix(q, Len(d)) = d}}
 DirNames(p, d) == {r[Len(d) + 1] : r \in {q \in FilesOf(p) : Len(q) > Len(d) + 1 /\ Prefix(q, Len(d)) = d}}
 HasInitPy(p, d) == "__init__.py" \in FileNames(p, d) \/ "__init__.py!" \in FileNames(p, d)
-\* the directories os.walk can reach: everything at or below a top-level "pkg" directory
-WalkDirs == UNION {{<<f[1], Prefix(f[2], k)>> : k \in 1..(Len(f[2]) - 1)} : f \in {g \in files : g[2][1] = Pkg}}
+\* the directories os.walk can reach: everything at or below a top-level "pkg" (or "pkg-stubs") directory
+WalkDirs == UNION {{<<f[1], Prefix(f[2], k)>> : k \in 1..(Len(f[2]) - 1)} : f \in {g \in files : g[2][1] \in {Pkg, Stubs}}}
 InSeq(e, s) == \E i \in 1..Len(s) : s[i] = e
 
 \* ====================================================================================================
@@ -171,27 +182,31 @@ TopModuleName(sp, req) ==
   ELSE LET i == IF req = "path1" THEN 1 ELSE IF req = "path2" THEN 2 ELSE 3
        IN IF InSeq(i, sp) THEN [name |-> Pkg, sp |-> sp] ELSE [name |-> Pkg, sp |-> <<i>> \o sp]
 
-\* one iteration of `for path in self.search_paths:` in find_package; acc = [found, ns]
+\* one iteration of `for path in self.search_paths:` in find_package(dn); acc = [found, ns]
+\* dn = "pkg" or "pkg-stubs" (real_module_name = dn without "-stubs": a Package is always named "pkg")
 NotFound == [k |-> "none", file |-> NoFile, stubs |-> NoFile]
-FindInPath(p, acc) ==
+ModFileOf(dn) == IF dn = Pkg THEN "pkg.py" ELSE "-"           \* "pkg-stubs.py": not in the universe
+StubFileOf(dn) == IF dn = Pkg THEN "pkg.pyi" ELSE "-"
+FindInPathN(dn, p, acc) ==
   IF acc.found # NotFound THEN acc
   ELSE IF FilesOf(p) = {} THEN acc                                        \* `if path_contents:`
-  ELSE LET d == <<Pkg>>
+  ELSE LET d == <<dn>>
            names == FileNames(p, d)
            \* choice Path(module_name): the directory
            r1 == IF ~IsDir(p, d) THEN acc
                  ELSE IF "__init__.py" \in names                           \* exists and not _is_pkg_style_namespace
-                 THEN [found |-> [k |-> "package", file |-> <<p, <<Pkg, "__init__.py">>>>,
-                                  stubs |-> IF "__init__.pyi" \in names THEN <<p, <<Pkg, "__init__.pyi">>>> ELSE NoFile], ns |-> acc.ns]
+                 THEN [found |-> [k |-> "package", file |-> <<p, <<dn, "__init__.py">>>>,
+                                  stubs |-> IF "__init__.pyi" \in names THEN <<p, <<dn, "__init__.pyi">>>> ELSE NoFile], ns |-> acc.ns]
                  ELSE IF "__init__.pyi" \in names                          \* "Stubs package."
-                 THEN [found |-> [k |-> "package", file |-> <<p, <<Pkg, "__init__.pyi">>>>, stubs |-> NoFile], ns |-> acc.ns]
+                 THEN [found |-> [k |-> "package", file |-> <<p, <<dn, "__init__.pyi">>>>, stubs |-> NoFile], ns |-> acc.ns]
                  ELSE [found |-> NotFound, ns |-> Append(acc.ns, <<p, d>>)]
        IN IF r1.found # NotFound THEN r1
           \* choice Path(module_name + ".py")
-          ELSE IF IsFile(p, <<"pkg.py">>)
-          THEN [found |-> [k |-> "package", file |-> <<p, <<"pkg.py">>>>,
-                           stubs |-> IF IsFile(p, <<"pkg.pyi">>) THEN <<p, <<"pkg.pyi">>>> ELSE NoFile], ns |-> r1.ns]
+          ELSE IF IsFile(p, <<ModFileOf(dn)>>)
+          THEN [found |-> [k |-> "package", file |-> <<p, <<ModFileOf(dn)>>>>,
+                           stubs |-> IF IsFile(p, <<StubFileOf(dn)>>) THEN <<p, <<StubFileOf(dn)>>>> ELSE NoFile], ns |-> r1.ns]
           ELSE r1
+FindInPath(p, acc) == FindInPathN(Pkg, p, acc)
 
 \* _filter_py_modules: os.walk(topdown) in the order given by L, __pycache__ pruned, accepted extensions only
 RECURSIVE WalkDir(_, _, _)
@@ -274,8 +289,24 @@ LoadOne(T, it) ==
 RECURSIVE LoadFold(_, _, _)
 LoadFold(T, items, i) == IF i > Len(items) THEN T ELSE LoadFold(LoadOne(T, items[i]), items, i + 1)
 
-RECURSIVE FindFold(_, _, _)
-FindFold(sp, i, acc) == IF i > Len(sp) THEN acc ELSE FindFold(sp, i + 1, FindInPath(sp[i], acc))
+RECURSIVE FindFoldN(_, _, _, _)
+FindFoldN(dn, sp, i, acc) == IF i > Len(sp) THEN acc ELSE FindFoldN(dn, sp, i + 1, FindInPathN(dn, sp[i], acc))
+FindFold(sp, i, acc) == FindFoldN(Pkg, sp, i, acc)
+
+\* find_spec(find_stubs_package=True): package and stubs-only package are searched separately, then assembled:
+\*   Package + Package           -> package.stubs = stubs.path   (replaces stubs found inside the package)
+\*   Namespace + Namespace       -> package.path += stubs.path
+\*   mixed                       -> the package alone
+\*   only one of them            -> that one (a stubs-only *namespace* package keeps the name "pkg-stubs")
+Nothing(fp) == fp.found = NotFound /\ fp.ns = <<>>
+Assemble(pk, st) ==
+  IF ~FindStubs \/ Nothing(st) THEN [found |-> pk.found, ns |-> pk.ns, misnamed |-> FALSE]
+  ELSE IF Nothing(pk) THEN [found |-> st.found, ns |-> st.ns, misnamed |-> st.found = NotFound]
+  ELSE IF pk.found # NotFound /\ st.found # NotFound THEN [found |-> [pk.found EXCEPT !.stubs = st.found.file], ns |-> pk.ns, misnamed |-> FALSE]
+  ELSE IF pk.found = NotFound /\ st.found = NotFound THEN [found |-> NotFound, ns |-> pk.ns \o st.ns, misnamed |-> FALSE]
+  ELSE [found |-> pk.found, ns |-> pk.ns, misnamed |-> FALSE]
+FindBoth(sp) == Assemble(FindFoldN(Pkg, sp, 1, [found |-> NotFound, ns |-> <<>>]),
+                         IF FindStubs THEN FindFoldN(Stubs, sp, 1, [found |-> NotFound, ns |-> <<>>]) ELSE [found |-> NotFound, ns |-> <<>>])
 
 RECURSIVE IterAll(_, _, _, _, _)
 IterAll(L, ps, i, acc, islist) ==
@@ -292,18 +323,28 @@ RootNode(fnd, ns) ==
 PortionsOf(fnd, ns) ==
   IF fnd = NotFound THEN ns
   ELSE IF IsInitFile(fnd.file) THEN <<DirOfFile(fnd.file)>> ELSE <<>>
-MergeTopStubs(T, fnd) ==
-  IF fnd # NotFound /\ fnd.stubs # NoFile
-  THEN LET r == NodeAt(T, <<Pkg>>) IN (T \ {r}) \cup {[r EXCEPT !.contrib = @ \cup {fnd.stubs}]}
-  ELSE T
+\* _load_package: `if package.stubs:` load the stubs module and merge_stubs(top_module, stubs).  Stubs inside the
+\* package: only the __init__ stub is loaded.  Stubs in another package (pkg-stubs): the whole stubs package is loaded
+\* (its own walk, in the listing order of its directories), then merged member by member: modules present on both
+\* sides are merged (_merge_module_stubs), stub-only modules are moved into the package (set_member).
+StubsTree(L, fnd) ==
+  LET root == [path |-> <<Pkg>>, files |-> <<fnd.stubs>>, ns |-> FALSE, contrib |-> {fnd.stubs}]
+  IN IF DirOfFile(fnd.stubs) = DirOfFile(fnd.file) \/ ~IsInitFile(fnd.stubs) THEN {root}
+     ELSE LoadFold({root}, SortByDepth(IterPortion(L, DirOfFile(fnd.stubs), {}, FALSE).items), 1)
+MergeTrees(T, S) ==
+  {IF Has(S, n.path) THEN [n EXCEPT !.contrib = @ \cup NodeAt(S, n.path).contrib] ELSE n : n \in T}
+  \cup {n \in S : ~Has(T, n.path)}
+MergeTopStubs(L, T, fnd) ==
+  IF fnd # NotFound /\ fnd.stubs # NoFile THEN MergeTrees(T, StubsTree(L, fnd)) ELSE T
 
 \* the whole run as one function of the listing (used for the canonical order; the actions below do the same stepwise)
 ImplRun(L) ==
-  LET fp == FindFold(ImplSearchPaths, 1, [found |-> NotFound, ns |-> <<>>])
+  LET fp == FindBoth(ImplSearchPaths)
   IN IF fp.found = NotFound /\ fp.ns = <<>> THEN [outcome |-> "ModuleNotFoundError", tree |-> {}]
+     ELSE IF fp.misnamed THEN [outcome |-> "KeyError", tree |-> {}]      \* the module is called "pkg-stubs": _post_load fails
      ELSE LET items == IterAll(L, PortionsOf(fp.found, fp.ns), 1, [items |-> <<>>, seen |-> {}], fp.found = NotFound)
               T == LoadFold({RootNode(fp.found, fp.ns)}, SortByDepth(items), 1)
-          IN [outcome |-> "ok", tree |-> MergeTopStubs(T, fp.found)]
+          IN [outcome |-> "ok", tree |-> MergeTopStubs(L, T, fp.found)]
 
 \* classification flags of Module
 Cls(T, n) == IF n.ns THEN (IF Len(n.path) = 1 THEN "namespace" ELSE IF IsNs(T, n) THEN "namespace-sub" ELSE "module")
@@ -327,9 +368,23 @@ StubOK(n) ==
      THEN (r.kind = "namespace" /\ InSeq(DirOfFile(f), r.locs)) \/ (r.kind = "package" /\ r.locs[1] = DirOfFile(f))
      ELSE LET parentlocs == IF Len(n.path) = 1 THEN SysRoots ELSE ImpOf(FrontOf(n.path)).locs
           IN InSeq(DirOfFile(f), parentlocs) /\ (r.kind = "none" \/ (r.kind = "module" /\ IsSo(r.file)))
+\* find_stubs_package=True: files of a stubs-only package "pkg-stubs" are acceptable at the mirrored position
+\* (pkg-stubs/x.pyi for pkg.x, pkg-stubs/__init__.pyi for pkg) where CPython has no runtime module; its directories
+\* are not portions for CPython and are ignored when portions are compared
+UnderStubs(f) == Len(f[2]) >= 1 /\ f[2][1] = Stubs
+NonStubs(fs) == SelectSeq(fs, LAMBDA f : ~UnderStubs(f))
+StubPkgOK(n) ==
+  LET f == n.files[1]
+      r == ImpOf(n.path)
+      tail == SubSeq(n.path, 2, Len(n.path))
+  IN /\ FindStubs /\ IsPyi(f)
+     /\ \/ f[2] = <<Stubs>> \o tail \o <<"__init__.pyi">>
+        \/ Len(tail) >= 1 /\ f[2] = <<Stubs>> \o FrontOf(tail) \o <<PyiTok(LastOf(tail))>>
+     /\ (r.kind = "none" \/ (r.kind = "module" /\ IsSo(r.file)))
 NodeOK(n) ==
   LET r == ImpOf(n.path)
-  IN IF n.ns THEN r.kind \in {"namespace", "package"} /\ (r.kind = "package" => r.ext) /\ SeqToSet(n.files) \subseteq SeqToSet(r.locs)
+  IN IF n.ns THEN r.kind \in {"namespace", "package"} /\ (r.kind = "package" => r.ext) /\ SeqToSet(NonStubs(n.files)) \subseteq SeqToSet(r.locs)
+     ELSE IF UnderStubs(n.files[1]) THEN StubPkgOK(n)
      ELSE IF IsPyi(n.files[1]) THEN StubOK(n)
      ELSE r.kind \in {"module", "package"} /\ (r.file = n.files[1] \/ SoSibling(r, n.files[1])) /\ ~(r.kind = "package" /\ r.ext)
 \* every loaded module is importable at that name from that file, or is stub-only
@@ -341,7 +396,8 @@ V_WalkerLoaded(out, T) ==
 \* first matching search path wins as for CPython
 V_FirstPathWins(out, T) ==
   LET r == py.top
-  IN CASE r.kind = "none" -> out = "ModuleNotFoundError"
+  IN CASE r.kind = "none" -> (out = "ModuleNotFoundError")
+                              \/ (FindStubs /\ out = "ok" /\ LET root == NodeAt(T, <<Pkg>>) IN ~root.ns /\ UnderStubs(root.files[1]))   \* stubs-only package
        [] r.kind = "module" -> IF IsSo(r.file)
                                THEN out = "ModuleNotFoundError" \/ (out = "ok" /\ LET root == NodeAt(T, <<Pkg>>) IN ~root.ns /\ SoSibling(r, root.files[1]))
                                ELSE out = "ok" /\ LET root == NodeAt(T, <<Pkg>>) IN ~root.ns /\ root.files = <<r.file>>
@@ -349,7 +405,7 @@ V_FirstPathWins(out, T) ==
                                              IN IF r.ext THEN root.ns /\ SeqToSet(root.files) = SeqToSet(r.locs)      \* pkgutil-style: portions as a set
                                                 ELSE ~root.ns /\ root.files = <<r.file>>
        [] r.kind = "namespace" -> out = "ok" /\ LET root == NodeAt(T, <<Pkg>>)
-                                               IN IF root.ns THEN root.files = r.locs
+                                               IN IF root.ns THEN NonStubs(root.files) = r.locs
                                                   ELSE IsPyi(root.files[1]) /\ IsInitFile(root.files[1]) /\ InSeq(DirOfFile(root.files[1]), r.locs)
 \* package / sub-package / namespace package / plain module as the files dictate
 V_Classified(out, T) ==
@@ -378,7 +434,6 @@ PkgDirs == {k \in WalkDirs : Len(k[2]) = 1 /\ k[2][1] = Pkg}
 RelDirs == {k[2] : k \in WalkDirs}
 PathsWith(d) == {p \in {1, 2, 3} : IsDir(p, d)}
 MinOf(S) == CHOOSE p \in S : \A q \in S : p <= q
-PyiTok(n) == CASE n = "m" -> "m.pyi" [] n = "x" -> "x.pyi" [] OTHER -> "-"
 GriffeFind == FindFold(ImplSearchPaths, 1, [found |-> NotFound, ns |-> <<>>])
 
 \* a compiled top-level module (pkg.<abi>.so) is invisible to find_package (the TODO in find_package), so a later
@@ -389,7 +444,12 @@ C_ToplevelSo ==
 \* a relative line of a .pth file is resolved against the cwd, not against the directory of the .pth file
 C_PthRelative == pth # 0 /\ pthform = "rel" /\ FilesOf(3) # {}
 \* a directory holding __init__.pyi but no __init__.py is a regular (stubs) package for Griffe, a namespace portion for CPython
-C_InitPyi == \E k \in WalkDirs : "__init__.pyi" \in FileNames(k[1], k[2]) /\ ~HasInitPy(k[1], k[2])
+\* (harmless when that directory is the only provider of its dotted name; "pkg-stubs" directories are stubs packages by design)
+C_InitPyi == \E k \in WalkDirs : /\ k[2][1] = Pkg /\ "__init__.pyi" \in FileNames(k[1], k[2]) /\ ~HasInitPy(k[1], k[2])
+                                 /\ LET r == PyResolve(k[2]) IN ~(r.kind = "namespace" /\ r.locs = <<k>>)
+\* find_stubs_package=True and only a stubs-only *namespace* package exists: find_package names it "pkg-stubs",
+\* the module is loaded under that name and load() ends in KeyError: 'pkg'
+C_StubsNsMisnamed == FindStubs /\ FindBoth(ImplSearchPaths).misnamed
 \* pkgutil-style package mixed with a regular package / a module file of the same name elsewhere on the path
 C_PkgutilRegular == (\E k \in PkgDirs : "__init__.py!" \in FileNames(k[1], k[2])) /\ (\E k \in PkgDirs : "__init__.py" \in FileNames(k[1], k[2]))
 C_PkgutilModule == (\E k \in PkgDirs : "__init__.py!" \in FileNames(k[1], k[2])) /\ (\E p \in {1, 2, 3} : IsFile(p, <<"pkg.py">>) \/ IsFile(p, <<"pkg.so">>))
@@ -422,7 +482,18 @@ Causes ==
   (IF C_NsDupModule THEN {"ns-dup-module"} ELSE {}) \cup
   (IF C_SubpackageSplit THEN {"subpackage-split"} ELSE {}) \cup
   (IF C_FileShadowsDir THEN {"file-shadows-dir"} ELSE {}) \cup
-  (IF C_FileAndStubbedPackage THEN {"file-and-stubbed-package"} ELSE {})
+  (IF C_FileAndStubbedPackage THEN {"file-and-stubbed-package"} ELSE {}) \cup
+  (IF C_StubsNsMisnamed THEN {"stubs-namespace-misnamed"} ELSE {})
+
+\* which clauses a cause class can explain (the same table as the `match` entries of findings.d/C14.json)
+Explains(c) ==
+  CASE c = "ns-dup-module" -> {"loaded-importable", "walker-loaded", "order-independent"}
+    [] c = "subpackage-split" -> {"loaded-importable", "classified", "walker-loaded"}
+    [] c = "file-shadows-dir" -> {"loaded-importable", "classified"}
+    [] c = "file-and-stubbed-package" -> {"order-independent"}
+    [] c = "toplevel-so-ignored" -> {"loaded-importable", "first-path-wins", "classified"}
+    [] c = "stubs-namespace-misnamed" -> {"first-path-wins"}
+    [] OTHER -> {"loaded-importable", "walker-loaded", "first-path-wins", "classified"}
 
 \* ====================================================================================================
 \* Case space
@@ -467,14 +538,31 @@ NsLayouts ==
   {[files |-> {<<1, <<Pkg>> \o r>> : r \in S1} \cup {<<2, <<Pkg>> \o r>> : r \in S2}, pth |-> 0, pthform |-> "abs"]
    : S1 \in NsChoices, S2 \in NsChoices \ {{}}}
 
-Layouts == IF Family = "top" THEN TopLayoutsOK ELSE IF Family = "sub" THEN SubLayouts ELSE NsLayouts
+\* family stubs (find_stubs_package=True): in each of the two search paths an entry for the package (kinds from
+\* TopKinds) and optionally a stubs-only package "pkg-stubs" (regular: __init__.pyi, or namespace style) holding
+\* <= MaxFiles of {m.pyi, n.pyi}; the package itself holds m.py
+StubFamPkg(k) ==
+  CASE k = "absent" -> {}
+    [] k = "py" -> {<<"pkg.py">>}
+    [] k = "init" -> {<<Pkg, "__init__.py">>, <<Pkg, "m.py">>}
+    [] k = "initboth" -> {<<Pkg, "__init__.py">>, <<Pkg, "__init__.pyi">>, <<Pkg, "m.py">>}
+    [] k = "ns" -> {<<Pkg, "m.py">>}
+StubKidSets == {K \in SUBSET {"m.pyi", "n.pyi"} : Cardinality(K) <= MaxFiles}
+StubChoices == {{}} \cup {{<<Stubs, "__init__.pyi">>} \cup {<<Stubs, t>> : t \in K} : K \in StubKidSets}
+                    \cup {{<<Stubs, t>> : t \in K} : K \in StubKidSets \ {{}}}
+StubsLayouts ==
+  {[files |-> {<<1, r>> : r \in StubFamPkg(k1) \cup s1} \cup {<<2, r>> : r \in StubFamPkg(k2) \cup s2}, pth |-> 0, pthform |-> "abs"]
+   : k1 \in TopKinds, k2 \in TopKinds, s1 \in StubChoices, s2 \in StubChoices}
+
+Layouts == IF Family = "top" THEN TopLayoutsOK ELSE IF Family = "sub" THEN SubLayouts
+           ELSE IF Family = "ns" THEN NsLayouts ELSE StubsLayouts
 
 Init ==
   /\ \E l \in Layouts : files = l.files /\ pth = l.pth /\ pthform = l.pthform
   /\ request = "-"
   /\ listing = <<>> /\ pc = "reference"
   /\ py = PyNone /\ causes = {} /\ canon = [outcome |-> "-", tree |-> {}]
-  /\ spaths = <<>> /\ topname = "-" /\ fpi = 0 /\ found = NotFound /\ nsdirs = <<>>
+  /\ spaths = <<>> /\ topname = "-" /\ fpi = 0 /\ found = NotFound /\ nsdirs = <<>> /\ sfound = NotFound /\ snsdirs = <<>>
   /\ tree = {} /\ outcome = "-" /\ portions = <<>> /\ pti = 0 /\ seen = {} /\ subs = <<>> /\ idx = 0
 
 CanonListing == IF WalkDirs = {} THEN <<>> ELSE [k \in WalkDirs |-> [files |-> SetToSeq(FileNames(k[1], k[2])), dirs |-> SetToSeq(DirNames(k[1], k[2]))]]
@@ -484,7 +572,7 @@ Reference ==
   /\ pc = "reference"
   /\ py' = PyReference
   /\ pc' = "causes"
-  /\ UNCHANGED <<casevars, listing, causes, canon, spaths, topname, fpi, found, nsdirs, tree, outcome, portions, pti, seen, subs, idx>>
+  /\ UNCHANGED <<stubvars, casevars, listing, causes, canon, spaths, topname, fpi, found, nsdirs, tree, outcome, portions, pti, seen, subs, idx>>
 Classify ==
   /\ pc = "causes"
   /\ causes' = Causes
@@ -492,7 +580,7 @@ Classify ==
   /\ (Domain = "defect" => causes' # {})
   /\ canon' = ImplRun(CanonListing)
   /\ pc' = "listdir"
-  /\ UNCHANGED <<casevars, listing, py, spaths, topname, fpi, found, nsdirs, tree, outcome, portions, pti, seen, subs, idx>>
+  /\ UNCHANGED <<stubvars, casevars, listing, py, spaths, topname, fpi, found, nsdirs, tree, outcome, portions, pti, seen, subs, idx>>
 
 \* os.walk reports the entries of one more directory: any order (only the canonical one when not permuting)
 ListDir ==
@@ -505,14 +593,14 @@ ListDir ==
              IN \E fs \in fsets, ds \in dsets :
                   /\ listing' = [x \in DOMAIN listing \cup {k} |-> IF x = k THEN [files |-> fs, dirs |-> ds] ELSE listing[x]]
                   /\ pc' = "listdir"
-  /\ UNCHANGED <<casevars, py, causes, canon, spaths, topname, fpi, found, nsdirs, tree, outcome, portions, pti, seen, subs, idx>>
+  /\ UNCHANGED <<stubvars, casevars, py, causes, canon, spaths, topname, fpi, found, nsdirs, tree, outcome, portions, pti, seen, subs, idx>>
 
 \* ModuleFinder.__init__ (+ _extend_from_pth_files)
 FinderInit ==
   /\ pc = "finder_init"
   /\ spaths' = ImplSearchPaths
   /\ pc' = "find_spec"
-  /\ UNCHANGED <<casevars, listing, py, causes, canon, topname, fpi, found, nsdirs, tree, outcome, portions, pti, seen, subs, idx>>
+  /\ UNCHANGED <<stubvars, casevars, listing, py, causes, canon, topname, fpi, found, nsdirs, tree, outcome, portions, pti, seen, subs, idx>>
 
 \* find_spec(request): the package is requested by name, by a dotted member name, or by the path of its top-level
 \* directory in one of the search paths.  (The request form cannot influence the walk: the forms other than "name"
@@ -532,21 +620,39 @@ FindSpec ==
        /\ LET r == TopModuleName(spaths, req) IN topname' = r.name /\ spaths' = r.sp
   /\ fpi' = 1 /\ found' = NotFound /\ nsdirs' = <<>>
   /\ pc' = "find_package"
-  /\ UNCHANGED <<files, pth, pthform, listing, py, causes, canon, tree, outcome, portions, pti, seen, subs, idx>>
+  /\ UNCHANGED <<stubvars, files, pth, pthform, listing, py, causes, canon, tree, outcome, portions, pti, seen, subs, idx>>
 
-\* find_package: one search path per step
+\* find_package("pkg"): one search path per step
 FindPackage ==
   /\ pc = "find_package"
   /\ IF fpi <= Len(spaths) /\ found = NotFound
-     THEN LET r == FindInPath(spaths[fpi], [found |-> found, ns |-> nsdirs])
-          IN found' = r.found /\ nsdirs' = r.ns /\ fpi' = fpi + 1 /\ pc' = "find_package" /\ UNCHANGED <<outcome, tree, portions>>
-     ELSE IF found = NotFound /\ nsdirs = <<>>
-          THEN outcome' = "ModuleNotFoundError" /\ pc' = "done" /\ UNCHANGED <<found, nsdirs, fpi, tree, portions>>
-          \* _load_package -> _load_module(name, package.path): the top module
-          ELSE /\ tree' = {RootNode(found, nsdirs)} /\ portions' = PortionsOf(found, nsdirs)
-               /\ outcome' = "ok" /\ pc' = "iter_submodules" /\ UNCHANGED <<found, nsdirs, fpi>>
+     THEN LET r == FindInPathN(Pkg, spaths[fpi], [found |-> found, ns |-> nsdirs])
+          IN found' = r.found /\ nsdirs' = r.ns /\ fpi' = fpi + 1 /\ pc' = "find_package"
+     ELSE UNCHANGED <<found, nsdirs>> /\ fpi' = 1 /\ pc' = (IF FindStubs THEN "find_stubs_package" ELSE "load_package")
+  /\ UNCHANGED <<stubvars, casevars, listing, py, causes, canon, spaths, topname, tree, outcome, portions, pti, seen, subs, idx>>
+
+\* find_package("pkg-stubs"): only with find_stubs_package=True
+FindStubsPackage ==
+  /\ pc = "find_stubs_package"
+  /\ IF fpi <= Len(spaths) /\ sfound = NotFound
+     THEN LET r == FindInPathN(Stubs, spaths[fpi], [found |-> sfound, ns |-> snsdirs])
+          IN sfound' = r.found /\ snsdirs' = r.ns /\ fpi' = fpi + 1 /\ pc' = "find_stubs_package"
+     ELSE UNCHANGED <<sfound, snsdirs, fpi>> /\ pc' = "load_package"
+  /\ UNCHANGED <<casevars, listing, py, causes, canon, spaths, topname, found, nsdirs, tree, outcome, portions, pti, seen, subs, idx>>
+
+\* end of find_spec (assembling package and stubs), then _load_package -> _load_module(name, package.path): the top module
+LoadPackage ==
+  /\ pc = "load_package"
+  /\ LET a == Assemble([found |-> found, ns |-> nsdirs], [found |-> sfound, ns |-> snsdirs])
+     IN IF Nothing(a)
+        THEN outcome' = "ModuleNotFoundError" /\ pc' = "done" /\ UNCHANGED <<found, nsdirs, tree, portions>>
+        ELSE IF a.misnamed                  \* NamespacePackage("pkg-stubs"): loaded under that name, _post_load cannot find "pkg"
+        THEN outcome' = "KeyError" /\ pc' = "done" /\ UNCHANGED <<found, nsdirs, tree, portions>>
+        ELSE /\ found' = a.found /\ nsdirs' = a.ns
+             /\ tree' = {RootNode(a.found, a.ns)} /\ portions' = PortionsOf(a.found, a.ns)
+             /\ outcome' = "ok" /\ pc' = "iter_submodules"
   /\ pti' = 1 /\ seen' = {} /\ subs' = <<>>
-  /\ UNCHANGED <<casevars, listing, py, causes, canon, spaths, topname, idx>>
+  /\ UNCHANGED <<stubvars, casevars, listing, py, causes, canon, spaths, topname, fpi, idx>>
 
 \* iter_submodules: one portion per step
 IterSubmodules ==
@@ -555,21 +661,22 @@ IterSubmodules ==
      THEN LET r == IterPortion(listing, portions[pti], seen, found = NotFound)
           IN subs' = subs \o r.items /\ seen' = r.seen /\ pti' = pti + 1 /\ pc' = "iter_submodules"
      ELSE pc' = "submodules" /\ UNCHANGED <<subs, seen, pti>>
-  /\ UNCHANGED <<casevars, listing, py, causes, canon, spaths, topname, fpi, found, nsdirs, tree, outcome, portions, idx>>
+  /\ UNCHANGED <<stubvars, casevars, listing, py, causes, canon, spaths, topname, fpi, found, nsdirs, tree, outcome, portions, idx>>
 
 Submodules ==
   /\ pc = "submodules"
   /\ subs' = SortByDepth(subs) /\ idx' = 1 /\ pc' = "load_submodule"
-  /\ UNCHANGED <<casevars, listing, py, causes, canon, spaths, topname, fpi, found, nsdirs, tree, outcome, portions, pti, seen>>
+  /\ UNCHANGED <<stubvars, casevars, listing, py, causes, canon, spaths, topname, fpi, found, nsdirs, tree, outcome, portions, pti, seen>>
 
 LoadSubmodule ==
   /\ pc = "load_submodule"
   /\ IF idx <= Len(subs)
      THEN tree' = LoadOne(tree, subs[idx]) /\ idx' = idx + 1 /\ pc' = "load_submodule"
-     ELSE tree' = MergeTopStubs(tree, found) /\ pc' = "done" /\ UNCHANGED idx
-  /\ UNCHANGED <<casevars, listing, py, causes, canon, spaths, topname, fpi, found, nsdirs, outcome, portions, pti, seen, subs>>
+     ELSE tree' = MergeTopStubs(listing, tree, found) /\ pc' = "done" /\ UNCHANGED idx
+  /\ UNCHANGED <<stubvars, casevars, listing, py, causes, canon, spaths, topname, fpi, found, nsdirs, outcome, portions, pti, seen, subs>>
 
-Next == Reference \/ Classify \/ ListDir \/ FinderInit \/ FindSpec \/ FindPackage \/ IterSubmodules \/ Submodules \/ LoadSubmodule
+Next == Reference \/ Classify \/ ListDir \/ FinderInit \/ FindSpec \/ FindPackage \/ FindStubsPackage \/ LoadPackage
+        \/ IterSubmodules \/ Submodules \/ LoadSubmodule
 Spec == Init /\ [][Next]_vars
 
 \* ---- properties ------------------------------------------------------------------------------------
@@ -586,11 +693,13 @@ RequestIndependent == pc = "find_package" => topname = Pkg /\ spaths = ImplSearc
 StepwiseIsFunctional == Done => LET r == ImplRun(listing) IN r.outcome = outcome /\ r.tree = tree
 \* in the defect domain the model must exhibit the defect: this "invariant" is expected to be violated there
 NoViolationAnywhere == Done => Violated(outcome, tree) = {}
+\* ... and only those: every clause the model breaks on a layout is one that a cause class of that layout explains
+OnlyKnownViolations == Done => Violated(outcome, tree) \subseteq UNION {Explains(c) : c \in causes}
 
 NodeOut(T, n) == [path |-> n.path, files |-> n.files, ns |-> n.ns, contrib |-> n.contrib, cls |-> Cls(T, n)]
 EmitCase ==
   (Emit /\ Done) =>
-    PrintT(<<"CASE", ToJson([fam |-> Family, files |-> files, pth |-> pth, pthform |-> pthform, request |-> request,
+    PrintT(<<"CASE", ToJson([fam |-> Family, stubs |-> FindStubs, files |-> files, pth |-> pth, pthform |-> pthform, request |-> request,
                              iscanon |-> (listing = CanonListing),
                              listing |-> {[p |-> k[1], d |-> k[2], files |-> listing[k].files, dirs |-> listing[k].dirs] : k \in DOMAIN listing},
                              impl |-> [outcome |-> outcome, tree |-> {NodeOut(tree, n) : n \in tree}, spaths |-> spaths],
